@@ -174,6 +174,22 @@ CHECKS = {
              "the IR DAG of the Au expression equals that of the raw operator or std function compiled next to it.  int_pow's value is not decided.",
         design_ref="3.14", technique="static_assert / compile-fail witness programs against the exponent model + DAG equality of LLVM IR with raw operators",
         note=TRUST_W + "; " + TRUST_I, engine="W+I"),
+    "C15": dict(
+        category="proof",
+        text="Rounding family: per (ratio incl. pi/180, source rep, round|floor|ceil, _in|_as, unit-only|<OutputRep>, quantity|point) the IR must be "
+             "the std function - in the floating type std::round works in for that rep - applied to an affine floating conversion of x whose "
+             "coefficient (and, for points, offset) equals the model's exact value in the target unit up to the rounding of its constants, computed "
+             "in that type with no integer or narrowing step; so the inequalities of the statement hold as far as they hold for the std function on "
+             "the correctly converted value (that residual and libm's own error are not decided).  Inversion: explicit-rep forms are cast(K / x) with K "
+             "the exact conversion constant; unit-only forms are accepted exactly when the rep is floating (and K representable) or K is an "
+             "integer >= 10^6 that fits, over SI-prefixed (time, frequency) pairs x 6 reps as compile-fail witness pairs; n -> K/(K/n) == n for "
+             "n = 1..1000 is evaluated arithmetically for every accepted K.  sin/cos/tan apply the std function to the value in radians in the "
+             "promoted type; hypot/fmod/remainder/arctan2 to both values in the common unit; min/max (same and mixed units), abs, copysign, isnan "
+             "equal the std function compiled alongside (DAG equality or equality under every ordering of the arguments); clamp is decided over all "
+             "orderings of its three arguments; result units and the angle guard are witnesses.  Same-unit max differs from std::max for NaN / "
+             "signed zero: recorded known finding.",
+        design_ref="3.15", technique="DAG / real-affine-form analysis of LLVM IR against model ratios and std reference functions + compile-fail witnesses + exhaustive arithmetic on the proven form",
+        note=TRUST_I + "; " + TRUST_W, engine="I+W"),
     "C16": dict(
         category="exploration",
         text="The library's constants (discovered from au/constants/, units read out of the tree) and generated constants (compound, scaled, "
